@@ -200,7 +200,7 @@ func (e *Enc) instr(fr *Frame, in ssa.Instruction, st *State, rb Term) (*State, 
 		return st, rb
 	case *ssa.FieldAddr:
 		p := e.value(fr, x.X)
-		e.nilCheck(fr, p, rb, x.Pos())
+		e.nilCheckV(fr, p, rb, x.Pos(), x.X)
 		a := e.fieldAddr(p, x.Field)
 		fr.vals[x] = Val{T: e.addrTerm(a), Typ: x.Type(), Addr: a}
 		return st, rb
@@ -256,7 +256,7 @@ func (e *Enc) instr(fr *Frame, in ssa.Instruction, st *State, rb Term) (*State, 
 				return st, rb
 			}
 			if v.Addr == nil {
-				e.nilCheck(fr, v, rb, x.Pos())
+				e.nilCheckV(fr, v, rb, x.Pos(), x.X)
 			}
 			nv := Val{T: e.Load(st, a), Typ: x.Type()}
 			e.set(fr, x, nv)
@@ -288,7 +288,7 @@ func (e *Enc) instr(fr *Frame, in ssa.Instruction, st *State, rb Term) (*State, 
 			return st, rb
 		}
 		if p.Addr == nil {
-			e.nilCheck(fr, p, rb, x.Pos())
+			e.nilCheckV(fr, p, rb, x.Pos(), x.Addr)
 		}
 		e.checkStoreFrame(fr, a, st, rb, x.Pos())
 		// closures stored into locals keep their static identity via the frame map
@@ -318,11 +318,16 @@ func (e *Enc) instr(fr *Frame, in ssa.Instruction, st *State, rb Term) (*State, 
 	case *ssa.TypeAssert:
 		v := e.value(fr, x.X)
 		ok, val := e.typeAssert(v, x.AssertedType)
+		e.assumeTypeInv(Val{T: val, Typ: x.AssertedType}, ok)
 		if x.CommaOk {
 			zero := e.sorts.Zero(x.AssertedType)
 			valT := e.sc.Define("ta_"+x.Name(), e.sortOf(x.AssertedType), ite(ok, val, zero))
 			okT := e.sc.Define("taok_"+x.Name(), "Bool", ok)
 			fr.vals[x] = Val{Typ: x.Type(), Tuple: []Val{{T: valT, Typ: x.AssertedType}, {T: okT, Typ: types.Typ[types.Bool]}}}
+		} else if types.Identical(x.X.Type(), x.AssertedType) {
+			// i.(I) with I the static type of i is go/ssa's nil check of a method value's receiver
+			e.safety(fr, "safety.nil", rb, "(not (= (if_typ "+v.T+") 0))", x.Pos())
+			e.set(fr, x, Val{T: v.T, Typ: x.AssertedType})
 		} else {
 			e.safety(fr, "safety.assert", rb, ok, x.Pos())
 			e.set(fr, x, Val{T: val, Typ: x.AssertedType})
@@ -532,11 +537,75 @@ func (e *Enc) safety(fr *Frame, kind string, rb, cond Term, pos token.Pos) {
 	if fr.top.contract != nil && !fr.top.contract.Safety {
 		return
 	}
+	if kind == "safety.nil" && fr.top.contract != nil && fr.top.contract.NoNilChecks {
+		return
+	}
 	e.ob(fr, kind, e.nextName(fr, kind), rb, cond, kind, pos)
 }
 
 func (e *Enc) nilCheck(fr *Frame, p Val, rb Term, pos token.Pos) {
+	e.nilCheckV(fr, p, rb, pos, nil)
+}
+
+// signalResult reports whether v is (an extract of) the pointer result of a call to a function
+// outside the repository whose results include neither an error nor a bool: for such functions a
+// nil pointer is the only way to signal "nothing there" (pem.Decode, http.Request.Cookie-likes...).
+func (e *Enc) signalResult(v ssa.Value) bool {
+	seen := 0
+	for v != nil && seen < 8 {
+		seen++
+		switch x := v.(type) {
+		case *ssa.Extract:
+			v = x.Tuple
+		case *ssa.ChangeType:
+			v = x.X
+		case *ssa.Call:
+			callee := x.Call.StaticCallee()
+			if callee == nil || callee.Pkg == nil || e.w.inRepoPkg(callee.Pkg.Pkg.Path()) {
+				return false
+			}
+			res := callee.Signature.Results()
+			hasPtr := false
+			for i := 0; i < res.Len(); i++ {
+				t := res.At(i).Type()
+				if types.Identical(t, types.Universe.Lookup("error").Type()) {
+					return false
+				}
+				if b, ok := t.Underlying().(*types.Basic); ok && b.Kind() == types.Bool {
+					return false
+				}
+				if _, ok := t.Underlying().(*types.Pointer); ok {
+					hasPtr = true
+				}
+			}
+			return hasPtr
+		default:
+			return false
+		}
+	}
+	return false
+}
+
+func (e *Enc) nilCheckV(fr *Frame, p Val, rb Term, pos token.Pos, src ssa.Value) {
 	if p.Addr != nil {
+		return
+	}
+	// receivers and pointer parameters of the function under verification are taken to be non-nil
+	// (a caller-side obligation; listed as an assumption of the sweep)
+	if fr.top != nil {
+		for _, a := range fr.top.args {
+			if a.T == p.T {
+				return
+			}
+		}
+	}
+	if _, isAlloc := e.allocIdx[p.T]; isAlloc {
+		return
+	}
+	if fr.top != nil && fr.top.contract != nil && fr.top.contract.NoNilChecks {
+		if src != nil && e.signalResult(src) {
+			e.safety(fr, "safety.nilsignal", rb, "(not (= "+p.T+" 0))", pos)
+		}
 		return
 	}
 	e.safety(fr, "safety.nil", rb, "(not (= "+p.T+" 0))", pos)
@@ -871,17 +940,37 @@ func (e *Enc) modAllHeap() func(string) bool {
 // checkStoreFrame / checkMapFrame: hooks for per-store frame obligations (C17: a mechanism's
 // Execute may only write fresh or context-owned memory).
 func (e *Enc) checkStoreFrame(fr *Frame, a *Addr, st *State, rb Term, pos token.Pos) {
-	if e.frameChk == nil || a.Ref == "" {
+	if a.Ref == "" {
 		return
 	}
-	e.frameChk(fr, "store "+a.Comp, a.Ref, st, rb, pos)
+	e.writeFrame(fr, "store into "+compShort(a.Comp), a.Ref, nil, st, rb, pos)
 }
 
 func (e *Enc) checkMapFrame(fr *Frame, m Val, st *State, rb Term, pos token.Pos) {
-	if e.frameChk == nil {
+	e.writeFrame(fr, "update of a map", m.T, m.Typ, st, rb, pos)
+}
+
+// writeFrame: in a function under a `writeframe` contract every heap write must go to memory this
+// call allocated itself or to memory the request context owns (ctxOwned). Writes whose target is
+// syntactically one of the call's own allocations generate no obligation.
+func (e *Enc) writeFrame(fr *Frame, what string, target Term, typ types.Type, st *State, rb Term, pos token.Pos) {
+	top := fr.top
+	if top == nil || top.contract == nil || !top.contract.WriteFrame {
 		return
 	}
-	e.frameChk(fr, "map update", m.T, st, rb, pos)
+	if _, isAlloc := e.allocIdx[target]; isAlloc {
+		return
+	}
+	var dis []Term
+	for i := range e.allocs {
+		if typ != nil && !mayDenote(typ, &e.allocs[i]) {
+			continue
+		}
+		dis = append(dis, e.eqRef(target, i))
+	}
+	f := e.sc.DeclFun("sp_ctxOwned", []string{"Int"}, "Bool")
+	dis = append(dis, app(f, target))
+	e.ob(fr, "wframe", e.nextName(fr, "wframe"), rb, or(dis...), what+" that is neither allocated by this call nor owned by the request context", pos)
 }
 
 // fnPkgPath: package path of a function, looking through generic instantiation and closures.
